@@ -131,7 +131,8 @@ def r3(ctx, Fs):
             continue        # sequential/parallel pairs are compared by C09.R4
         h = {b['path']: shape_no_types(b) for b in F.bodies}
         diff = sorted(p for p in set(rh) | set(h) if rh.get(p) != h.get(p))
-        other = [p for p in diff if not strip_generics(p).endswith(PRED)]
+        helpers = {strip_generics(h) for h in private_helpers_of(F, F.body_by_suffix(PRED))} | {strip_generics(h) for h in private_helpers_of(ref, ref.body_by_suffix(PRED))}
+        other = [p for p in diff if not strip_generics(p).endswith(PRED) and strip_generics(p) not in helpers]
         ctx.check('C11.R3', 'only-the-predicate-differs@' + cfg, not other, 'bodies differing from the ibig build: %s' % ([strip_generics(p) for p in diff][:6]), 'at most the exact predicate',
                   None, key_extra='confine:%s:%s' % (cfg, ','.join(strip_generics(p) for p in other[:3])))
         # backend crates are called only from the predicate
@@ -141,7 +142,7 @@ def r3(ctx, Fs):
                 kr = t.get('resolved_crate') or t.get('callee_crate') or ''
                 if re.match(r'(ibig|dashu|dashu_int|dashu_base|malachite|malachite_nz|malachite_base|num_bigint|num_integer|rug)', kr):
                     users.add(strip_generics(b['path']))
-        bad = sorted(u for u in users if not u.endswith(PRED) and '::tests::' not in u)
+        bad = sorted(u for u in users if not u.endswith(PRED) and '::tests::' not in u and u not in helpers)
         ctx.check('C11.R3', 'backend-calls-confined@' + cfg, not bad, 'callers of backend crates: %s' % sorted(users), 'only ' + PRED, None, key_extra='callers:' + cfg)
     # same for the reference build
     users = set()
@@ -150,7 +151,8 @@ def r3(ctx, Fs):
             kr = t.get('resolved_crate') or t.get('callee_crate') or ''
             if re.match(r'(ibig|dashu|malachite|num_bigint|rug)', kr):
                 users.add(strip_generics(b['path']))
-    bad = sorted(u for u in users if not u.endswith(PRED) and '::tests::' not in u)
+    helpers = {strip_generics(h) for h in private_helpers_of(ref, ref.body_by_suffix(PRED))}
+    bad = sorted(u for u in users if not u.endswith(PRED) and '::tests::' not in u and u not in helpers)
     ctx.check('C11.R3', 'backend-calls-confined@default', not bad and users, 'callers of backend crates: %s' % sorted(users), 'only ' + PRED, None, key_extra='callers:default')
 
 
